@@ -64,17 +64,18 @@ Checks(o) ==
            num == live /\ o.pre.flag = FlagIncr /\ o.pre.val >= NumBase
            want == IF ~live THEN e.d ELSE IF num THEN o.pre.val - NumBase + e.d ELSE 0 IN
        (IF e.res = want THEN {} ELSE {<<sid, e.n, "C01_Incr">>})
+  ELSE IF e.a = "GCStart" THEN
+       \* C17 range clause: the range the code resolved equals RangeOf
+       (IF e.second \/ ~e.agesure \/ (o.aux.ok /\ e.rb = o.aux.b /\ e.re = o.aux.e) THEN {} ELSE {<<sid, e.n, "C17_Range">>})
+  ELSE IF e.a = "GCRefused" THEN
+       (IF ~e.agesure \/ ~o.aux.ok THEN {} ELSE {<<sid, e.n, "C17_Range">>})
   ELSE IF e.a = "GC" THEN
-       \* C17 range clause: the range the code resolved (or its refusal) equals RangeOf
-       (IF e.second \/ ~e.agesure \/ ((e.res = "ok") = o.aux.ok /\ (e.res = "ok" => (e.rb = o.aux.b /\ e.re = o.aux.e))) THEN {}
-        ELSE {<<sid, e.n, "C17_Range">>})
-       \cup
        \* C17 frame clause: a file outside [rb,re] keeps its old bytes; at most one of them, below rb,
        \* may have grown; nothing at or above the head is touched; files are created only below rb or in range
        (LET F == {e.frame[i] : i \in 1..Len(e.frame)}
             out == {f \in F : f.c < e.rb \/ f.c > e.re}
             grown == {f \in out : f.after > f.before}
-        IN IF e.res # "ok" \/ e.second THEN {}
+        IN IF e.res # "ok" \/ e.second \/ e.concurrent THEN {}
            ELSE IF /\ \A f \in out : f.same /\ f.after >= f.before
                    /\ Cardinality(grown) <= 1 /\ (\A f \in grown : f.c < e.rb)
                    /\ (\A f \in F : f.c >= e.head => (f.same /\ f.after = f.before))
@@ -89,7 +90,8 @@ Checks(o) ==
            Y == {x \in X : x.r.k \in Keys /\ ~Colliding(x.r.k)}
            cur(k) == MaxOf({i \in 1..Len(recs) : recs[i].key = k}, 0)
            isCur(x) == LET i == cur(x.r.k) IN i > 0 /\ recs[i].ver = x.r.ver /\ (x.r.ver > 0 => recs[i].val = x.r.val)
-       IN (IF \A x \in Y : isCur(x) THEN {} ELSE {<<sid, e.n, "C18_OnlyCurrent" \o TombTag(CHOOSE x \in Y : ~isCur(x))>>})
+       IN IF e.concurrent THEN {} ELSE
+          (IF \A x \in Y : isCur(x) THEN {} ELSE {<<sid, e.n, "C18_OnlyCurrent" \o TombTag(CHOOSE x \in Y : ~isCur(x))>>})
           \cup (IF \A x, y \in Y : (x.r.k = y.r.k /\ isCur(x) /\ isCur(y)) => x = y THEN {} ELSE {<<sid, e.n, "C18_Once">>})
   ELSE IF e.a = "Recovered" THEN
        \* C06 / C07: what a fresh process serves from the directory as the kill left it.
@@ -127,7 +129,7 @@ Checks(o) ==
 \* the specification's own state must also agree with the reference map (this is where a
 \* defect that the transcription shares with the code shows up, e.g. F12)
 StateChecks(o) ==
-  IF up /\ o.e.a \in {"Set", "Incr", "Flush", "RotFlush", "Open", "GC"} /\ ~C01_ReadMap
+  IF up /\ o.e.a \in {"Set", "Incr", "Flush", "RotFlush", "Open", "GC"} /\ pc["gc"] = "idle" /\ ~C01_ReadMap
     THEN {<<sid, o.e.n, "C01_ReadMap">>} ELSE {}
 
 \* drift: the transcription (loc) disagrees with what the code replied
@@ -164,31 +166,31 @@ Stuck(what) == /\ drift' = drift \cup Drift(obs) \cup {<<sid, Ev.n, what>>}
                /\ obs' = NoObs /\ UNCHANGED vars
 
 TrSet ==
-  /\ IsEv("Set") /\ Quiet /\ Adv /\ sid' = sid
+  /\ IsEv("Set") /\ ~OthersBusy /\ Adv /\ sid' = sid
   /\ IF up
        THEN /\ W_Begin("c1", Ev.k, Ev.val, Ev.rev, Ev.flag, Ev.nblk, Ev.vh)
             /\ Settle /\ obs' = [e |-> Ev, pre |-> ref[Ev.k], aux |-> NoAux]
        ELSE Stuck("set-while-down")
 
 TrGet ==
-  /\ IsEv("Get") /\ Quiet /\ Adv /\ sid' = sid
+  /\ IsEv("Get") /\ ~OthersBusy /\ Adv /\ sid' = sid
   /\ IF up
        THEN R_Begin("c1", Ev.k) /\ Settle /\ obs' = [e |-> Ev, pre |-> ref[Ev.k], aux |-> NoAux]
        ELSE Stuck("get-while-down")
 
 TrIncr ==
-  /\ IsEv("Incr") /\ Quiet /\ Adv /\ sid' = sid
+  /\ IsEv("Incr") /\ ~OthersBusy /\ Adv /\ sid' = sid
   /\ IF up
        THEN I_Begin("c1", Ev.k, Ev.d, Ev.vh) /\ Settle /\ obs' = [e |-> Ev, pre |-> ref[Ev.k], aux |-> NoAux]
        ELSE Stuck("incr-while-down")
 
 TrFlush ==
-  /\ IsEv("Flush") /\ Quiet /\ Adv /\ sid' = sid
+  /\ IsEv("Flush") /\ ~OthersBusy /\ Adv /\ sid' = sid
   /\ IF up THEN F_Start("flusher") /\ Settle /\ obs' = [e |-> Ev, pre |-> NoRef, aux |-> NoAux]
      ELSE Stuck("flush-while-down")
 
 TrRotFlush ==
-  /\ IsEv("RotFlush") /\ Quiet /\ Adv /\ sid' = sid
+  /\ IsEv("RotFlush") /\ ~OthersBusy /\ Adv /\ sid' = sid
   /\ IF up /\ Ev.ran /\ Ev.c \in Chunks /\ pc[RotName(Ev.c)] = "spawned"
        THEN F_Enter(RotName(Ev.c)) /\ Settle /\ obs' = [e |-> Ev, pre |-> NoRef, aux |-> NoAux]
        ELSE IF ~Ev.ran THEN Settle /\ obs' = NoObs /\ UNCHANGED vars
@@ -226,12 +228,42 @@ TrOpen ==
             /\ Settle /\ obs' = [e |-> Ev, pre |-> NoRef, aux |-> NoAux]
        ELSE Stuck("open-while-up")
 
+\* has the specification's GC pass reached the hook point of event e?
+AtPoint(e) ==
+  LET here == gc.oldpos = <<e.c, e.off>> /\ gc.rid # 0 IN
+  CASE e.point = "g.newest"      -> here /\ pc["gc"] \in {"g_copy", "g_dstswitch", "g_next"} /\ (pc["gc"] = "g_next" => ~gc.keep)
+    [] e.point = "g.copy"        -> gc.rid # 0 /\ recs[gc.rid].key = e.k /\ pc["gc"] = (IF gc.found THEN "g_repget" ELSE "g_hint")
+    [] e.point = "g.repoint.mid" -> gc.rid # 0 /\ recs[gc.rid].key = e.k /\ pc["gc"] = "g_repget"
+    [] e.point = "g.repoint"     -> gc.rid # 0 /\ recs[gc.rid].key = e.k /\ gc.found /\ pc["gc"] = "g_hint"
+    [] e.point = "g.hint"        -> gc.rid # 0 /\ recs[gc.rid].key = e.k /\ gc.keep /\ pc["gc"] = "g_next"
+    [] e.point = "g.srcend"      -> pc["gc"] = "g_src" /\ gc.src = e.c + 1
+    [] e.point = "g.before"      -> pc["gc"] = "g_dst"
+    [] OTHER -> FALSE
+
+TrGCStart ==
+  /\ IsEv("GCStart") /\ Quiet /\ Adv /\ sid' = sid
+  /\ IF up
+       THEN /\ Settle /\ obs' = [e |-> Ev, pre |-> NoRef,
+                                 aux |-> RangeOf(Ev.begin, Ev.end, LAMBDA n : IF ToString(n) \in DOMAIN Ev.old THEN Ev.old[ToString(n)] ELSE TRUE)]
+            /\ G_Start(Ev.rb, Ev.re, Ev.merge)
+       ELSE Stuck("gc-while-down")
+
+\* a refused request: nothing happens, the refusal must agree with RangeOf
+TrGCRefused ==
+  /\ IsEv("GCRefused") /\ Quiet /\ Adv /\ sid' = sid
+  /\ Settle /\ obs' = [e |-> Ev, pre |-> NoRef,
+                        aux |-> RangeOf(Ev.begin, Ev.end, LAMBDA n : IF ToString(n) \in DOMAIN Ev.old THEN Ev.old[ToString(n)] ELSE TRUE)]
+  /\ UNCHANGED vars
+
+\* the real pass is parked at a hook point: the specification's pass must be exactly there
+TrGCAt ==
+  /\ IsEv("GCAt") /\ ~OthersBusy /\ AtPoint(Ev) /\ Adv /\ sid' = sid
+  /\ Settle /\ obs' = NoObs /\ UNCHANGED vars
+
+\* the pass has returned
 TrGC ==
   /\ IsEv("GC") /\ Quiet /\ Adv /\ sid' = sid
-  /\ IF up
-       THEN /\ Settle /\ obs' = [e |-> Ev, pre |-> NoRef, aux |-> RangeOf(Ev.begin, Ev.end, LAMBDA n : IF ToString(n) \in DOMAIN Ev.old THEN Ev.old[ToString(n)] ELSE TRUE)]
-            /\ IF Ev.res = "ok" THEN G_Start(Ev.rb, Ev.re, Ev.merge) ELSE UNCHANGED vars
-       ELSE Stuck("gc-while-down")
+  /\ Settle /\ obs' = [e |-> Ev, pre |-> NoRef, aux |-> NoAux] /\ UNCHANGED vars
 
 TrScan ==
   /\ IsEv("Scan") /\ Quiet /\ Adv /\ sid' = sid
@@ -252,17 +284,24 @@ TrEnd ==
 \* an event this specification has no action for: skip it, note it
 TrOther ==
   /\ l <= Len(Trace) /\ Quiet /\ Adv /\ sid' = sid
-  /\ Trace[l].a \notin {"Reset", "Set", "Get", "Incr", "Flush", "RotFlush", "Close", "Open", "ReadAll", "End", "GC", "Scan", "Recovered"}
+  /\ Trace[l].a \notin {"Reset", "Set", "Get", "Incr", "Flush", "RotFlush", "Close", "Open", "ReadAll", "End", "GC", "GCStart", "GCRefused", "GCAt", "Scan", "Recovered"}
   /\ Stuck("unknown-event")
 
-Silent == ~Quiet /\ Continue /\ UNCHANGED tvars
+\* unlogged micro-steps: every process except GC runs its operation to completion; the GC pass advances
+\* only towards the next logged hook point (GCAt) or to its end (GC), otherwise it stays parked
+NextIs(a) == l <= Len(Trace) /\ Trace[l].a = a
+GCMayRun == pc["gc"] # "idle" /\ ((NextIs("GCAt") /\ ~AtPoint(Trace[l])) \/ NextIs("GC"))
+Silent == /\ UNCHANGED tvars
+          /\ \/ (OthersBusy /\ NonGCStep)
+             \/ (~OthersBusy /\ GCMayRun /\ GCProcStep)
 
 TraceInit ==
   /\ l = 1 /\ obs = NoObs /\ bad = {} /\ drift = {} /\ lead = {} /\ sid = "" /\ TLCSet(1, 1)
   /\ Init([hashOf |-> [k \in Keys |-> CHOOSE h \in HashIds : TRUE], rank |-> [k \in Keys |-> 0], fileMax |-> 4,
            splitCap |-> 2, checkVHash |-> FALSE, dumpEager |-> FALSE, bodyMaxBlk |-> 1, mut |-> {}])
 
-TraceNext == TrReset \/ TrSet \/ TrGet \/ TrIncr \/ TrFlush \/ TrRotFlush \/ TrClose \/ TrOpen \/ TrGC \/ TrScan \/ TrRecovered
+TraceNext == TrReset \/ TrSet \/ TrGet \/ TrIncr \/ TrFlush \/ TrRotFlush \/ TrClose \/ TrOpen \/ TrGCStart \/ TrGCRefused
+             \/ TrGCAt \/ TrGC \/ TrScan \/ TrRecovered
              \/ TrReadAll \/ TrEnd \/ TrOther \/ Silent
 
 TraceSpec == TraceInit /\ [][TraceNext]_<<vars, tvars>>
